@@ -42,6 +42,7 @@ type propConf struct {
 
 var props = map[string]propConf{
 	"C08": {Engine: "E1", QuickBudget: 12, ThorBudget: 600},
+	"C09": {Engine: "E2", QuickBudget: 15, ThorBudget: 600},
 }
 
 type summary struct {
